@@ -232,7 +232,7 @@ LOADPATHS = ['?.lua', 'lib/?.lua', '?/init.lua', 'libs/?/?.lua', '?/?', 'x?y/?.l
 
 
 def _loadpath_case(item):
-    lp, names, present, tmp = item
+    lp, names, present, tmp, via = item
     from pico8 import tool
     from pico8.game import file as gfile
     core.quiet_picotool()
@@ -260,12 +260,23 @@ def _loadpath_case(item):
     with open(os.path.join(S, 'main.lua'), 'wb') as f:
         f.write(b''.join(b'local m%d = require("%s")\n' % (k, n.encode()) for k, n in enumerate(names)) + b'function f() return require("' + names[0].encode() + b'") end\n')
     out = os.path.join(S, 'out.p8')
+    old_env = os.environ.get('PICO8_LUA_PATH')
+    os.environ.pop('PICO8_LUA_PATH', None)
+    argv = ['--quiet', 'build', out, '--lua', os.path.join(S, 'main.lua')]
+    if via == 'option':
+        argv += ['--lua-path', lp]
+    else:
+        os.environ['PICO8_LUA_PATH'] = lp          # (the load path from the environment, as the README describes)
     try:
-        rc = tool.main(['--quiet', 'build', out, '--lua', os.path.join(S, 'main.lua'), '--lua-path', lp])
+        rc = tool.main(argv)
     except SystemExit as e:
         rc = e.code
     except Exception as e:  # noqa
         rc = 'exception %s' % type(e).__name__
+    finally:
+        os.environ.pop('PICO8_LUA_PATH', None)
+        if old_env is not None:
+            os.environ['PICO8_LUA_PATH'] = old_env
     rec = {'patterns': [p_.split('?') for p_ in pats], 'exists': exists, 'reqs': list(names), 'outcome': 'error', 'bound': []}
     if rc in (0, None) and os.path.exists(out):
         rec['outcome'] = 'ok'
@@ -284,19 +295,19 @@ def loadpaths(ctx):
     items = []
     for lp in LOADPATHS:
         for names, present in ((('vec', 'phys'), ('vec', 'phys')), (('vec',), ()), (('a', 'b'), ('a',)), (('vec', 'phys'), ('vec', 'phys'))):
-            items.append((lp, names, present, ctx.tmp))
+            items.append((lp, names, present, ctx.tmp, 'option' if len(items) % 3 else 'env'))
     res = core.parmap(_loadpath_case, items, procs=8)
     can = {'patterns': [['libs/', '/', '.lua']], 'exists': ['libs/vec/vec.lua', 'libs/vec/?.lua'], 'reqs': ['vec'], 'outcome': 'ok', 'bound': [['vec', 'libs/vec/?.lua']]}
     v = ctx.validate('TraceLoadPath', [r for r, _ in res] + [can])
     ctx.traces -= 1
     ctx.canary(v[-1][0] == 'wrong-file-bound', 'only the first ? substituted')
-    for (lp, names, present, _), (rec, rc), vv in zip(items, res, v):
+    for (lp, names, present, _, via), (rec, rc), vv in zip(items, res, v):
         ctx.evaluations += 1
         if vv[0] == 'ok':
             ctx.nontrivial += 1
         else:
             ctx.violation('loadpath/%s/%s' % (vv[0], 'multi-q' if any(p_.count('?') > 1 for p_ in lp.split(';')) else 'single-q'),
-                          'build --lua-path %r requiring %s (package files present for %s): %s; outcome %s (%s), bound %s' % (lp, list(names), list(present), vv[0], rec['outcome'], rc, rec['bound']),
+                          'build with load path %r (given by %s) requiring %s (package files present for %s): %s; outcome %s (%s), bound %s' % (lp, '--lua-path' if via == 'option' else 'PICO8_LUA_PATH', list(names), list(present), vv[0], rec['outcome'], rc, rec['bound']),
                           {'kind': 'loadpath', 'lua_path': lp, 'names': list(names)})
 
 
